@@ -130,7 +130,30 @@ Theorem C01_spec_reflect : forall sp m,
 Proof. exact (fun sp m => conj (legal_specb_spec sp m) (legal_moves_spec_In sp m)). Qed.
 Print Assumptions C01_spec_reflect.
 
-(** * Full statements not (yet) proved: carried by the correspondence against the Spec *)
+(** * Full statements not (yet) proved: carried by the correspondence against the Spec
+
+    What is proved above covers the pseudo-legal generator completely (C01_pseudo_exact), the
+    attack / in-check test (C01_inCheck) and all table geometry.  C01_legal_exact then
+    decomposes into two remaining links, both stated here:
+      (a) the make/test/unmake path of removeIllegal gives the Spec's verdict
+          (needs "squares after makeMove = board of make_spec", Position.v side), and
+      (b) the king-ray shortcut of removeIllegal / isLegal agrees with (a) (level L5 of the
+          proof plan, the only non-mechanical argument).
+    They, the evasion / capture generators and givesCheck are tied to the Spec by the
+    correspondence check on every run. *)
+
+(** (a): for a pseudo-legal move, playing it and testing the mover's king = Spec verdict,
+    and the position is restored *)
+Definition C01_tryMove_statement : Prop :=
+  forall zk p m, WF p -> In m (pseudoLegalMoves p) ->
+    snd (tryMove zk p m) = negb (in_checkb (sp_board (make_spec (abs p) m)) (whiteMove p)) /\
+    samePosition (fst (tryMove zk p m)) p.
+
+(** (b): removeIllegal computes the same list as the filter that always plays the move *)
+Definition C01_shortcut_statement : Prop :=
+  forall zk p, WF p ->
+    snd (removeIllegal zk p (pseudoLegalMoves p)) =
+    filter (fun m => snd (tryMove zk p m)) (pseudoLegalMoves p).
 
 (** generated legal moves = legal moves of chess, without duplicates; the position is restored *)
 Definition C01_legal_exact_statement : Prop :=
